@@ -178,3 +178,213 @@ Section BWREC.
     apply (alpha_total O CS). lia.
   Qed.
 End BWREC.
+
+(* ---- the accumulators of the thread (tmp.pi, tmp.tr, tmp.gamma, tmp.likelihood) ---- *)
+Section BWACC.
+  Context {A : Type} (O : Ops A) (CF : CSemifield O).
+  Let CS := sf_semiring O CF.
+  Variable m ne : nat.
+  Variable Pi : nat -> A.
+  Variable Tr Tf : nat -> nat -> A.
+  Variable smap : nat -> nat.
+  Variable hasfinal : bool.
+  Notation "a (+) b" := (oadd O a b) (at level 50, left associativity).
+  Notation "a (x) b" := (omul O a b) (at level 40, left associativity).
+  Notation zero := (o0 O).
+  Notation sum := (esum O).
+  Notation TK := (Tk Tr Tf).
+  Notation st := (seq 0 m).
+  Notation EM := (enum_marginal O m Pi Tr Tf smap).
+  Notation EP := (enum_pair O m Pi Tr Tf smap).
+  Notation EL := (enum_likelihood O m Pi Tr Tf smap).
+
+  Add Ring sra : (srt O CS).
+
+  (* without final states the code has Tf = Tr (the same object) *)
+  Hypothesis Htf : hasfinal = false -> forall i j, Tf i j = Tr i j.
+
+  (* number of transitions whose xi is accumulated *)
+  Definition ntrans (n : nat) : nat := if hasfinal then n - 2 else n - 1.
+
+  Lemma Tk_used n k i j : k < ntrans n -> TK n (S k) i j = Tr i j.
+  Proof.
+    unfold ntrans. intros Hk. destruct hasfinal eqn:Ef.
+    - rewrite Tk_mid by lia. reflexivity.
+    - destruct (Nat.lt_ge_cases (S k) (n - 1)) as [H|H].
+      + rewrite Tk_mid by lia. reflexivity.
+      + rewrite Tk_last by lia. apply Htf. reflexivity.
+  Qed.
+
+  Definition wf_tr (T : list (list A)) : Prop := length T = m /\ forall i, i < m -> length (nth i T []) = m.
+
+  Lemma nth_map_lt {X Y} (f : X -> Y) l i d d' : i < length l -> nth i (map f l) d = f (nth i l d').
+  Proof. intros H. rewrite (nth_indep _ d (f d')) by (rewrite map_length; exact H). apply map_nth. Qed.
+
+  Lemma nth_zip_add (P : list A) (g : nat -> A) i : length P = m -> i < m ->
+    nth i (map (fun pg => fst pg (+) snd pg) (combine P (map g st))) zero = nth i P zero (+) g i.
+  Proof.
+    intros Hl Hi.
+    rewrite (nth_map_lt _ _ _ _ (zero, g 0)) by (rewrite combine_length, map_length, seq_length; lia).
+    rewrite combine_nth by (rewrite map_length, seq_length; exact Hl).
+    cbn [fst snd]. rewrite map_nth, seq_nth by exact Hi. reflexivity.
+  Qed.
+  Lemma length_zip_add (P : list A) (g : nat -> A) : length P = m ->
+    length (map (fun pg => fst pg (+) snd pg) (combine P (map g st))) = m.
+  Proof. intros Hl. rewrite map_length, combine_length, map_length, seq_length. lia. Qed.
+
+  Section REC.
+    Variable e : nat -> nat -> A.
+    Variable n : nat.
+    Variable al be : @mat A.
+
+    Lemma xi_add_entry T k i j : wf_tr T -> i < m -> j < m ->
+      nth j (nth i (bw_xi_add O m Tr smap al be e T k) []) zero =
+      nth j (nth i T []) zero (+) odiv O (bw_xi O Tr smap al be e k i j) (bw_xiz O m Tr smap al be e k).
+    Proof.
+      intros [L R] Hi Hj. unfold bw_xi_add.
+      set (F := fun ir : nat * list A => map _ (combine st (snd ir))).
+      rewrite (nth_map_lt F _ _ _ (0, [])) by (rewrite combine_length, seq_length; lia).
+      rewrite combine_nth by (rewrite seq_length; lia). rewrite seq_nth by exact Hi.
+      unfold F. cbn [fst snd plus].
+      set (G := fun jv : nat * A => snd jv (+) _).
+      rewrite (nth_map_lt G _ _ _ (0, zero)) by (rewrite combine_length, seq_length, R; lia).
+      rewrite combine_nth by (rewrite seq_length, R; lia). rewrite seq_nth by exact Hj.
+      unfold G. cbn [fst snd plus]. reflexivity.
+    Qed.
+    Lemma xi_add_wf T k : wf_tr T -> wf_tr (bw_xi_add O m Tr smap al be e T k).
+    Proof.
+      intros [L R]. unfold bw_xi_add. split.
+      - rewrite map_length, combine_length, seq_length. lia.
+      - intros i Hi.
+        set (F := fun ir : nat * list A => map _ (combine st (snd ir))).
+        rewrite (nth_map_lt F _ _ _ (0, [])) by (rewrite combine_length, seq_length; lia).
+        rewrite combine_nth by (rewrite seq_length; lia).
+        unfold F. cbn [snd]. rewrite map_length, combine_length, seq_length, R by exact Hi. lia.
+    Qed.
+
+    Lemma xi_fold ks : forall T, wf_tr T ->
+      let T' := fold_left (bw_xi_add O m Tr smap al be e) ks T in
+      wf_tr T' /\
+      forall i j, i < m -> j < m ->
+        nth j (nth i T' []) zero =
+        nth j (nth i T []) zero (+)
+        sum (map (fun k => odiv O (bw_xi O Tr smap al be e k i j) (bw_xiz O m Tr smap al be e k)) ks).
+    Proof.
+      induction ks as [|k ks IH]; intros T WF; cbn [fold_left]; cbv zeta.
+      - split; [exact WF|]. intros i j _ _. change (sum (map _ [])) with zero. ring.
+      - destruct (IH _ (xi_add_wf T k WF)) as [W E]. cbv zeta in W, E. split; [exact W|].
+        intros i j Hi Hj. rewrite E, xi_add_entry by assumption.
+        change (sum (map ?f (k :: ks))) with (f k (+) sum (map f ks)). cbv beta. ring.
+    Qed.
+  End REC.
+
+  (* gamma of every position *)
+  Lemma bw_gammas_spec e n alpha0 beta0 ks : (forall k, In k ks -> k < n) -> ois0 O (EL e n) = false ->
+    bw_gammas O m ne smap (oforward_buf O m Pi Tr Tf smap e alpha0 n) (obackward_buf O m Tr Tf smap e beta0 n) ks =
+    Some (map (fun k => bw_gclass O m ne smap (map (fun i => odiv O (EM e n k i) (EL e n)) st)) ks).
+  Proof.
+    intros Hks Hz. induction ks as [|k ks IH]; [reflexivity|]. cbn [bw_gammas map].
+    rewrite (bw_gcol_spec O CF) by (apply Hks; left; reflexivity). rewrite Hz.
+    rewrite IH by (intros k' Hk'; apply Hks; right; exact Hk'). reflexivity.
+  Qed.
+
+  (* one record, on top of arbitrary alpha/beta content: an error iff its
+     likelihood is zero, otherwise every accumulator grows by the enumerated
+     posterior expectation of that record *)
+  Theorem bw_record_spec (s : bwst) n e : 0 < n -> length (bwPi s) = m -> wf_tr (bwTr s) ->
+    if ois0 O (EL e n) then bw_record O m ne Pi Tr Tf smap hasfinal s n e = None
+    else exists s', bw_record O m ne Pi Tr Tf smap hasfinal s n e = Some s' /\
+         length (bwPi s') = m /\ wf_tr (bwTr s') /\
+         (forall i, i < m -> nth i (bwPi s') zero = nth i (bwPi s) zero (+) odiv O (EM e n 0 i) (EL e n)) /\
+         (forall i j, i < m -> j < m ->
+            nth j (nth i (bwTr s') []) zero =
+            nth j (nth i (bwTr s) []) zero (+) sum (map (fun k => odiv O (EP e n k i j) (EL e n)) (seq 0 (ntrans n)))) /\
+         bwGam s' = bwGam s ++ [map (fun k => bw_gclass O m ne smap (map (fun i => odiv O (EM e n k i) (EL e n)) st)) (seq 0 n)] /\
+         bwLik s' = bwLik s (x) EL e n.
+  Proof.
+    intros Hn LP WF. unfold bw_record.
+    rewrite (bw_gcol_spec O CF) by exact Hn.
+    destruct (ois0 O (EL e n)) eqn:Hz; [reflexivity|].
+    rewrite bw_gammas_spec by (auto; intros k Hk; apply in_seq in Hk; lia).
+    eexists. split; [reflexivity|]. cbn [bwPi bwTr bwGam bwLik].
+    destruct (xi_fold e (oforward_buf O m Pi Tr Tf smap e (bwA s) n) (obackward_buf O m Tr Tf smap e (bwB s) n)
+                      (seq 0 (ntrans n)) (bwTr s) WF) as [W E]. cbv zeta in W, E.
+    fold (ntrans n).
+    split; [apply length_zip_add; exact LP|]. split; [exact W|]. split; [|split; [|split]].
+    - intros i Hi. apply nth_zip_add; assumption.
+    - intros i j Hi Hj. rewrite E by assumption. f_equal. apply (esum_ext O). intros k Hk.
+      apply in_seq in Hk.
+      assert (Hk2 : k + 2 <= n) by (unfold ntrans in Hk; destruct hasfinal; lia).
+      rewrite (bw_xi_spec O CF) by (auto; apply Tk_used; lia).
+      rewrite (bw_xiz_spec O CF) by (auto; intros; apply Tk_used; lia). reflexivity.
+    - reflexivity.
+    - rewrite (bw_lik_spec O CF) by exact Hn. reflexivity.
+  Qed.
+
+  (* all records of a thread, one after the other on the same work matrices *)
+  Notation recw := (fun (i : nat) (r : nat * (nat -> nat -> A)) => odiv O (EM (snd r) (fst r) 0 i) (EL (snd r) (fst r))).
+  Notation rect := (fun (i j : nat) (r : nat * (nat -> nat -> A)) =>
+                      sum (map (fun k => odiv O (EP (snd r) (fst r) k i j) (EL (snd r) (fst r))) (seq 0 (ntrans (fst r))))).
+
+  Lemma bw_records_spec recs : forall s, (forall r, In r recs -> 0 < fst r) -> length (bwPi s) = m -> wf_tr (bwTr s) ->
+    if existsb (fun r => ois0 O (EL (snd r) (fst r))) recs
+    then bw_records O m ne Pi Tr Tf smap hasfinal s recs = None
+    else exists s', bw_records O m ne Pi Tr Tf smap hasfinal s recs = Some s' /\
+         (forall i, i < m -> nth i (bwPi s') zero = nth i (bwPi s) zero (+) sum (map (recw i) recs)) /\
+         (forall i j, i < m -> j < m ->
+            nth j (nth i (bwTr s') []) zero = nth j (nth i (bwTr s) []) zero (+) sum (map (rect i j) recs)) /\
+         bwLik s' = bwLik s (x) fold_right (fun r acc => EL (snd r) (fst r) (x) acc) (o1 O) recs.
+  Proof.
+    assert (Hc : forall a l, sum (a :: l) = a (+) sum l) by reflexivity.
+    induction recs as [|r recs IH]; intros s Hpos LP WF.
+    - cbn [existsb bw_records]. exists s. split; [reflexivity|].
+      split; [intros i _; change (sum (map _ [])) with zero; ring|].
+      split; [intros i j _ _; change (sum (map _ [])) with zero; ring|]. cbn [fold_right]. ring.
+    - cbn [existsb bw_records].
+      pose proof (bw_record_spec s (fst r) (snd r) (Hpos r (or_introl eq_refl)) LP WF) as R.
+      destruct (ois0 O (EL (snd r) (fst r))) eqn:Hz; cbn [orb].
+      + rewrite R. reflexivity.
+      + destruct R as [s1 [E1 [LP1 [WF1 [P1 [T1 [_ K1]]]]]]]. rewrite E1.
+        specialize (IH s1 (fun r' Hr' => Hpos r' (or_intror Hr')) LP1 WF1).
+        destruct (existsb _ recs); [exact IH|].
+        destruct IH as [s' [E' [P' [T' K']]]]. exists s'. split; [exact E'|].
+        split; [|split].
+        * intros i Hi. rewrite P', P1 by exact Hi.
+          cbn [map]. rewrite Hc. cbv beta. ring.
+        * intros i j Hi Hj. rewrite T', T1 by assumption.
+          cbn [map]. rewrite Hc. cbv beta. ring.
+        * rewrite K', K1. cbn [fold_right]. ring.
+  Qed.
+
+  (* the thread starts from pi, tr = zero and likelihood one; alpha and beta hold
+     whatever the previous step left in them *)
+  Theorem bw_thread_spec (alpha beta : @mat A) recs : (forall r, In r recs -> 0 < fst r) ->
+    if existsb (fun r => ois0 O (EL (snd r) (fst r))) recs
+    then bw_thread O m ne Pi Tr Tf smap hasfinal alpha beta recs = None
+    else exists s', bw_thread O m ne Pi Tr Tf smap hasfinal alpha beta recs = Some s' /\
+         (forall i, i < m -> nth i (bwPi s') zero = sum (map (recw i) recs)) /\
+         (forall i j, i < m -> j < m -> nth j (nth i (bwTr s') []) zero = sum (map (rect i j) recs)) /\
+         bwLik s' = fold_right (fun r acc => EL (snd r) (fst r) (x) acc) (o1 O) recs.
+  Proof.
+    intros Hpos. unfold bw_thread.
+    set (s0 := mkBW alpha beta (repeat zero m) (repeat (repeat zero m) m) [] (o1 O)).
+    assert (LP : length (bwPi s0) = m) by apply repeat_length.
+    assert (WF : wf_tr (bwTr s0)).
+    { split; [apply repeat_length|]. intros i Hi. cbn [bwTr s0].
+      rewrite (nth_indep _ [] (repeat zero m)) by (rewrite repeat_length; exact Hi).
+      rewrite nth_repeat. apply repeat_length. }
+    pose proof (bw_records_spec recs s0 Hpos LP WF) as R.
+    destruct (existsb _ recs); [exact R|].
+    destruct R as [s' [E [P [T K]]]]. exists s'. split; [exact E|].
+    assert (Z1 : forall i, nth i (repeat zero m) zero = zero).
+    { intros i. destruct (Nat.lt_ge_cases i m) as [H|H].
+      - apply nth_repeat.
+      - apply nth_overflow. rewrite repeat_length. exact H. }
+    split; [|split].
+    - intros i Hi. rewrite P by exact Hi. cbn [bwPi s0]. rewrite Z1. ring.
+    - intros i j Hi Hj. rewrite T by assumption. cbn [bwTr s0].
+      rewrite (nth_indep _ [] (repeat zero m)) by (rewrite repeat_length; exact Hi).
+      rewrite nth_repeat, Z1. ring.
+    - rewrite K. cbn [bwLik s0]. ring.
+  Qed.
+End BWACC.
